@@ -108,6 +108,20 @@ CLAIMED["C05"] = (
     "DESIGN.md section 6, C05",
 )
 
+CLAIMED["C11"] = (
+    "PARTIAL. Proved in Coq for all rationals: a negative buffer is rejected for every type (iff); the type dispatch; the three "
+    "closed forms (time stamp, interval, box) are exactly the interval/box widened by the buffers and clamped at 0 / "
+    "MAX_FREQUENCY, valid, containing the original, monotone in the buffers, identity for zero buffers. The shapely branch "
+    "(all other types) is GEOS: it is not modelled; validity, containment, bounds extension and monotonicity are judged there "
+    "by the oracle on generated inputs only, with four recorded known findings (polygonal caps, mitre limit / reversals, "
+    "GeometryCollection KeyError).",
+    "Trusted: Coq kernel/vm_compute; hand-written model of the guard/dispatch/closed forms (correspondence exact on dyadic "
+    "inputs); GEOS buffer, clip_by_rect and to_geojson are outside the proofs — for that branch the check is differential "
+    "testing, not proof.",
+    "Rocq/Coq proof for the closed-form branch + correspondence; shapely branch by property oracle (differential testing)",
+    "DESIGN.md section 6, C11",
+)
+
 NOT_YET = {}
 
 
